@@ -101,10 +101,14 @@ Print Assumptions c17_wrap_only_parenthesizes.
 
 (* Every expression parses: an @(...) token whose legacy text parses to a tree with an intended tree migrates,
    without error, to @ followed by the printed intended tree (parenthesized unless it is a plain context path),
-   and that text parses (options DefaultToSelf / URLEncode off). *)
+   and that text parses (options DefaultToSelf / URLEncode off).  [too_long … = false]: no subexpression migrates to
+   more than 100 times the length of the legacy expression plus 1000 bytes (the growth cap of the migrator; beyond it
+   the expression is left unmigrated with an error; only nested datetime ± time, whose time operand is written twice,
+   gets there). *)
 Theorem c17_parses : forall ctxmap raw_dates printable isln lower_rune s e t following,
   text_eqb s t_empty_literal = false ->
   parse1 s = Some e -> mt ctxmap raw_dates e = Some t ->
+  too_long ctxmap raw_dates (max_migrated_length s) e = false ->
   exists body, migrate_seg ctxmap raw_dates false false printable isln lower_rune (SExpr s) following = (64 :: body, false) /\
     (body = print3 t \/ body = 40 :: print3 t ++ [41]) /\ parse3 (print3 t) = Some t.
 Proof.
@@ -187,6 +191,7 @@ Theorem c17_rescan_expression : forall isln lower_rune,
   separates_identifiers = true ->
   text_eqb s t_empty_literal = false ->
   parse1 s = Some e -> mt ctxmap raw_dates e = Some t -> scan_lits t = true ->
+  too_long ctxmap raw_dates (max_migrated_length s) e = false ->
   ExScannerProofs.nulfree (print3 t ++ f) ->
   let out := fst (migrate_seg ctxmap raw_dates false false printable isln lower_rune (SExpr s) f) in
   let pscan := ExScannerProofs.p_scan isln lower_rune (Some run_top_levels) true in
